@@ -14,7 +14,7 @@ From Coq Require Import ZArith List Bool String Sorting.Sorted.
 From KV Require Import Base.Sx Base.Str Base.SelSlice Gen.Generated Model.Select Model.Scans
   Proofs.SelectBaseP Proofs.SelectP Proofs.SelectLawsP Proofs.ScansP.
 From KV Require Model.Categorical Proofs.ScansSegP Model.ScansConcat Proofs.ScansConcatP Proofs.ScansPipeP Proofs.ScansNamesP
-  Proofs.ScansBodyP.
+  Proofs.ScansBodyP Proofs.ScansOrderP.
 Import ListNotations.
 Open Scope Z_scope.
 
@@ -241,6 +241,45 @@ Theorem C03_example :
        /\ positions (tk sf) = [5; 6; 7; 8; 9] /\ fk sf = fk ex_s /\ bk sf = bk ex_s.
 Proof. exact ex_facts. Qed.
 Print Assumptions C03_example.
+
+(* ---------------------------------------------------------------------------------------------------------------
+   LAWS A USER RELIES ON (Proofs/ScansOrderP.v) *)
+
+(* IN TIME ORDER.  C03_partition gives increasing INDEX order; on every observation built from a seg_good segmentation
+   (C03_every_dump_once: every output of the pipelines) that IS time order: every dump shown by an item comes before
+   every dump shown by an item with a larger index. *)
+Theorem C03_time_order : forall B N g o w (body : st -> res (B * st)) s ys sf, (0 < N)%nat -> ScansPipeP.seg_good N g ->
+  body_ok (so (sobs_of_seg g o)) body -> Inv3 (so (sobs_of_seg g o)) s ->
+  iterate (sobs_of_seg g o) w body s = Ok (ys, sf) ->
+  forall y y' p q, In y ys -> In y' ys -> shown y p = true -> shown y' q = true -> y_index y < y_index y' -> (p < q)%nat.
+Proof. exact ScansOrderP.items_in_time_order. Qed.
+Print Assumptions C03_time_order.
+
+(* ITERATING AGAIN after exhaustion: same items, same dumps per item, same selection afterwards *)
+Theorem C03_iterate_again : forall B B2 (O : sobs) w (body : st -> res (B * st)) (body2 : st -> res (B2 * st)) s ys sf ys2 sf2,
+  body_ok (so O) body -> body_ok (so O) body2 -> Inv3 (so O) s ->
+  iterate O w body s = Ok (ys, sf) -> iterate O w body2 sf = Ok (ys2, sf2) ->
+  map y_index ys2 = map y_index ys
+  /\ (forall y y2 p, In y ys -> In y2 ys2 -> y_index y = y_index y2 -> shown y2 p = shown y p)
+  /\ same_sel sf2 s.
+Proof. exact ScansOrderP.iterate_again. Qed.
+Print Assumptions C03_iterate_again.
+
+(* NESTED PARTITION (scans inside compscans and the other way round): inside every outer item the inner items are the
+   inner indices present in the dumps of the outer item, increasing; an inner item shows exactly the dumps of the prior
+   selection that belong to BOTH the outer and the inner item; every dump of the outer item is shown by an inner item *)
+Theorem C03_nested_partition : forall (O : sobs) outer inner s ys sf, Inv3 (so O) s ->
+  iterate_nested O outer inner s = Ok (ys, sf) ->
+  forall y, In y ys ->
+    map y_index (y_body y) = indices_of (it_field inner) (so O) (tk (y_st y))
+    /\ StronglySorted Z.lt (map y_index (y_body y))
+    /\ (forall z p, In z (y_body y) -> shown z p = nth p (tk s) false &&
+          match nth_error (o_dumps (so O)) p with
+          | Some d => (it_field outer d =? y_index y) && (it_field inner d =? y_index z)
+          | None => false end)
+    /\ (forall p, shown y p = true -> exists z, In z (y_body y) /\ shown z p = true).
+Proof. exact ScansOrderP.nested_partition. Qed.
+Print Assumptions C03_nested_partition.
 
 (* ---------------------------------------------------------------------------------------------------------------
    LOOP BODIES THAT CALL select() THEMSELVES (Proofs/ScansBodyP.v).
